@@ -24,9 +24,12 @@ TINY = {
  (library prims (edifLevel 0) (technology (numberDefinition))
   (cell BUF (cellType GENERIC) (view netlist (viewType NETLIST) (interface (port I (direction INPUT)) (port O (direction OUTPUT))))))
  (library work (edifLevel 0) (technology (numberDefinition))
+  (cell mid (cellType GENERIC) (view netlist (viewType NETLIST) (interface (port m (direction INPUT)))))
   (cell top (cellType GENERIC) (view netlist (viewType NETLIST)
    (interface (port a (direction INPUT)) (port (array (rename b "b[1:0]") 2) (direction OUTPUT)))
    (contents (instance u1 (viewRef netlist (cellRef BUF (libraryRef prims))) (property INIT (string "x")))
+    (instance u3 (viewRef netlist (cellRef mid (libraryRef work))))
+    (instance u4 (viewRef netlist (cellRef mid)))
     (instance (rename u2 "u[2]") (viewRef netlist (cellRef BUF (libraryRef prims))))
     (net a (joined (portRef a) (portRef I (instanceRef u1)) (portRef I (instanceRef u2))))
     (net (rename b_0_ "b[0]") (joined (portRef (member b 1)) (portRef O (instanceRef u1))))
